@@ -103,6 +103,8 @@ def jobs(tier, seed):
         "outline-empty-examples": ([F([O(1, [(2, []), (0, [])]), S(1)])], {"out_dom": D}),
         "same-names": ([F([S(1, name="Happy path"), R([S(1, name="Happy path"), S(1)]), R([O(1, [(1, [])], name="Happy path")]),
                            R([O(1, [(1, [])], name="Happy path")])])], {"out_dom": {"*": [0, 1]}}),
+        # two files with the same layout: a line number listed for the first file is the line of a passing scenario in the second
+        "two-files-same-layout": ([F([S(1), S(1)]), F([S(1), S(1)])], {"out_dom": {"*": [0, 1]}, "undef": False}),
         "hookfault-skip": ([F([S(1, tags=["t1"]), S(1)])], {"hooks": True, "fault": True, "hook_skip_scenario": True, "out_dom": {"*": [0, 1]}, "undef": False}),
         "hookfault": ([F([S(1, tags=["t1"]), R([S(1)], tags=["tr"])], tags=["t0"])], {"hooks": True, "fault": True, "out_dom": {"*": [0, 1]}}),
         "hookfault-status-read": ([F([S(1, tags=["t1"]), S(1)])], {"hooks": True, "fault": True, "read_status_in_hooks": True, "out_dom": {"*": [0, 1]}}),
